@@ -93,17 +93,20 @@ example : (List.range structs.length).filter (structHoldsRefTo structs Id.Wenger
 -- … and a struct that merely has a *parameter* which may be instantiated with a record is not one of them
 example : structHoldsRefTo structs Id.WengertList Id.TensorView = false := by decide +kernel
 
-/-- … and auto traits are monotone in the parameters, for every struct of the table: giving a type
-    parameter *more* auto traits never loses one of the struct's.  (So the all-`Send + Sync`
-    instantiation is the best case, and a parameter instantiated with a record — neither — can only
-    take traits away.) -/
+/-- … and auto traits are monotone in the parameters, for every struct of the table: giving one type
+    parameter one more auto trait (`raiseOne`: one `false` flag becomes `true`) never loses one of
+    the struct's; by transitivity more auto traits on the parameters never lose any.  (So the
+    all-`Send + Sync` instantiation is the best case, and a parameter instantiated with a record —
+    neither — can only take traits away.) -/
 theorem send_sync_monotone_in_params :
     ∀ id ∈ List.range structs.length,
-      ∀ fl ∈ allFlags ((structs[id]?).map (·.nparams) |>.getD 0),
-        ∀ fl' ∈ allFlags ((structs[id]?).map (·.nparams) |>.getD 0), flagsLe fl fl' = true →
-          verdictLe (isSend structs (instantiate id fl)) (isSend structs (instantiate id fl')) = true ∧
-          verdictLe (isSync structs (instantiate id fl)) (isSync structs (instantiate id fl')) = true := by
+      ∀ fl ∈ allFlags ((structs[id]?).map (·.nparams) |>.getD 0), ∀ fl' ∈ raiseOne fl,
+        verdictLe (isSend structs (instantiate id fl)) (isSend structs (instantiate id fl')) = true ∧
+        verdictLe (isSync structs (instantiate id fl)) (isSync structs (instantiate id fl')) = true := by
   decide +kernel
+
+example : raiseOne [(true, false), (false, false)] =
+    [[(true, true), (false, false)], [(true, false), (true, false)], [(true, false), (false, true)]] := by decide
 
 /-- containers, views and iterators *of records* inherit the tape's restriction: with the element
     type `Record<'a, T>` (and the documented source over it) none of them is `Send` or `Sync` -/
